@@ -289,7 +289,7 @@ impl Prop for C13 {
             ],
             Tier::Thorough => vec![
                 Space { name: "chars", size: tg::count_upto(k, 6), exhaustive: true, chunk: 1_000_000, case_timeout_s: 10.0, what: "all strings of length 1-6 over a 24-symbol character alphabet" },
-                Space { name: "lexemes", size: 3_000_000, exhaustive: false, chunk: 20_000, case_timeout_s: 10.0, what: "random sequences of token lexemes (incl. fusing and unterminated forms), grammar fragments and Unicode pieces" },
+                Space { name: "lexemes", size: 10_000_000, exhaustive: false, chunk: 20_000, case_timeout_s: 10.0, what: "random sequences of token lexemes (incl. fusing and unterminated forms), grammar fragments and Unicode pieces" },
                 Space { name: "corpus", size: 600_000, exhaustive: false, chunk: 5000, case_timeout_s: 20.0, what: "shipped .mmm sources truncated / range-deleted / duplicated / with insertions" },
             ],
         }
